@@ -22,7 +22,7 @@ GEN = ["Registry", "Units", "Tokens"]
 LEAN_MODULES = ["KaVerif.Props.Pipeline"]
 THEOREMS = ["KaVerif.PIPE_dispatch_table", "KaVerif.PIPE_arith", "KaVerif.PIPE_arith_or_refuses", "KaVerif.PIPE_arith_exact",
             "KaVerif.PIPE_text_arith", "KaVerif.PIPE_text_arith_min_full", "KaVerif.PIPE_text_arith_lexed",
-            "KaVerif.PIPE_statements", "KaVerif.PIPE_session", "KaVerif.PIPE_qty_ops", "KaVerif.PIPE_array_sum"]
+            "KaVerif.PIPE_statements", "KaVerif.PIPE_session", "KaVerif.PIPE_qty_ops", "KaVerif.PIPE_array_sum", "KaVerif.PIPE_interval"]
 RULE = ("whole programs (1-4 statements, depth <= 4) mixing arithmetic on ints / fractions / floats / scientific and based literals, "
         "variables and assignments across ';', factorials and binomials, quantities with units / prefixes / compound signatures / "
         "temperatures and 'to', intervals and their functions, arrays / ranges / comprehensions / aggregates, comparisons incl. chained "
